@@ -23,6 +23,7 @@ type CExpr struct {
 	// binders for quantifiers
 	BVars  []string
 	BTypes []string
+	Trig   []*CExpr // optional multi-pattern {t1, t2} for quantifiers
 	Pos    int
 }
 
@@ -217,6 +218,16 @@ func (p *cparser) expr(minPrec int) *CExpr {
 				continue
 			}
 			break
+		}
+		if p.isOp("{") {
+			p.i++
+			for !p.isOp("}") {
+				q.Trig = append(q.Trig, p.expr(0))
+				if p.isOp(",") {
+					p.i++
+				}
+			}
+			p.expect("}")
 		}
 		p.expect("::")
 		q.Args = []*CExpr{p.expr(0)}
